@@ -1,4 +1,5 @@
 import QcelVerif.Model.Mill
+import QcelVerif.Model.MillSrc
 import QcelVerif.Lib.Proto
 /-!
 Line-protocol driver for the C13 model (`Model/Mill.lean`) at `K = Rat`.
@@ -15,6 +16,13 @@ Fields are separated by `|`, numbers inside a field by blanks; numbers are exact
     atoms|map(m)|ints(n)
     bexp|gr gc lr lc|a((gr*lr)*(gc*lc))          -> 4-D (gr,gc,lr,lc) in C order
     bcon|gr gc lr lc|b(gr*gc*lr*lc)              -> 2-D (gr*lr, gc*lc) in C order
+
+Every line may be prefixed with `src|`: the same operation is then evaluated with the SOURCE-DERIVED
+function (`Model/MillSrc.lean` = `evalMill` of the AST that `harness/c13_src.py` regenerated from
+align.py / np_blockwise.py into `Gen/MillSrc.lean`) instead of the hand model of `Model/Mill.lean`.
+The harness sends every case line both ways (three-way: implementation, hand model, source-derived).
+For `src|bexp` / `src|bcon` an entry the source-derived view cannot produce (assert failed, read
+outside the buffer, numpy ValueError) gives `err ViewError`.
 -/
 open QcelVerif QcelVerif.Mill QcelVerif.Proto
 
@@ -65,8 +73,53 @@ def isqrt (n : Nat) : Nat := Id.run do
   while (r + 1) * (r + 1) ≤ n do r := r + 1
   return r
 
-def stepC13 (line : String) : String :=
-  match splitOnChar line '|' with
+/-- the functions a line is evaluated with: the hand model or the source-derived one -/
+structure MillFns where
+  coords : {n m : Nat} → Recipe Rat n m → Bool → Geom Rat n → Geom Rat m
+  grad : {n m : Nat} → Recipe Rat n m → Geom Rat n → Geom Rat m
+  hess : {n m : Nat} → Recipe Rat n m → Hess Rat n → Hess Rat m
+  vec : {n m : Nat} → Recipe Rat n m → Vec3 Rat → Vec3 Rat
+  vecgrad : {n : Nat} → Recipe Rat n n → (Fin 3 → Fin (n * 3) → Rat) → Fin 3 → Fin (n * 3) → Rat
+  atoms : {n m : Nat} → (Fin m → Fin n) → (Fin n → Int) → Fin m → Int
+  bexp : {gr gc lr lc : Nat} → (Fin (gr * lr) → Fin (gc * lc) → Rat) →
+    Fin gr → Fin gc → Fin lr → Fin lc → Option Rat
+  /-- resulting 2-D array: shape and entry `[r, c]` -/
+  bcon : {gr gc lr lc : Nat} → (Fin gr → Fin gc → Fin lr → Fin lc → Rat) →
+    Option (Nat × Nat × (Nat → Nat → Option Rat))
+
+def handFns : MillFns where
+  coords := fun r rv x => if rv then alignCoordsRev r x else alignCoords r x
+  grad := fun r g => alignGradient r g
+  hess := fun r h => alignHessian r h
+  vec := fun r v => alignVector r v
+  vecgrad := fun r mu => alignVectorGradient r mu
+  atoms := fun mp a => alignAtoms mp a
+  bexp := fun a i j p q => some (blockwiseExpand a i j p q)
+  bcon := fun {gr gc lr lc} b =>
+    some (gr * lr, gc * lc, fun r c =>
+      if h : r < gr * lr ∧ c < gc * lc then some (blockwiseContract b ⟨r, h.1⟩ ⟨c, h.2⟩) else none)
+
+def srcFns : MillFns where
+  coords := fun r rv x => Src.alignCoordsKw r rv x
+  grad := fun r g => Src.alignGradient r g
+  hess := fun r h => Src.alignHessian r h
+  vec := fun r v => Src.alignVector r v
+  vecgrad := fun r mu => Src.alignVectorGradient r mu
+  atoms := fun mp a => Src.alignAtoms mp a
+  bexp := fun {_ _ lr lc} a i j p q =>
+    evalExpand Src.genAST_blockwise_expand a [lr, lc] [i.val, j.val, p.val, q.val]
+  bcon := fun b =>
+    match evalContract Src.genAST_blockwise_contract b with
+    | some ([h, w], f) => some (h, w, fun r c => FlatArr.get2 ([h, w], f) r c)
+    | _ => none
+
+def showOptRats (l : List (Option Rat)) : String :=
+  match l.mapM id with
+  | some l => showRats l
+  | none => "err ViewError"
+
+def stepWith (F : MillFns) (fields : List String) : String :=
+  match fields with
   | ["coords", rv, mi, sh, ro, mp, ge] =>
     match parseBool? rv, parseRecipe? mi sh ro mp, parseRats? ge with
     | some rv, some rr, some g =>
@@ -76,7 +129,7 @@ def stepC13 (line : String) : String :=
       | none => "err IndexError"
       | some m =>
         let r := mkRecipe rr n m
-        dumpGeom (if rv then alignCoordsRev r (geomOf g n) else alignCoords r (geomOf g n))
+        dumpGeom (F.coords r rv (geomOf g n))
     | _, _, _ => "bad-op"
   | ["grad", mi, sh, ro, mp, ge] =>
     match parseRecipe? mi sh ro mp, parseRats? ge with
@@ -85,7 +138,7 @@ def stepC13 (line : String) : String :=
       let n := g.size / 3
       match mapOf? rr.map n with
       | none => "err IndexError"
-      | some m => dumpGeom (alignGradient (mkRecipe rr n m) (geomOf g n))
+      | some m => dumpGeom (F.grad (mkRecipe rr n m) (geomOf g n))
     | _, _ => "bad-op"
   | ["hess", mi, sh, ro, mp, he] =>
     match parseRecipe? mi sh ro mp, parseRats? he with
@@ -97,7 +150,7 @@ def stepC13 (line : String) : String :=
       | none => "err IndexError"
       | some m =>
         let H : Hess Rat n := fun r c => h[r.val * (n * 3) + c.val]!
-        let A := alignHessian (mkRecipe rr n m) H
+        let A := F.hess (mkRecipe rr n m) H
         showRats ((fins (m.size * 3)).flatMap fun r => (fins (m.size * 3)).map fun c => A r c)
     | _, _ => "bad-op"
   | ["vec", mi, sh, ro, mp, ve] =>
@@ -109,7 +162,7 @@ def stepC13 (line : String) : String :=
       match mapOf? rr.map n with
       | none => "bad-op"
       | some m =>
-        let w := alignVector (mkRecipe rr n m) (vec3Of v)
+        let w := F.vec (mkRecipe rr n m) (vec3Of v)
         showRats ((fins 3).map w)
     | _, _ => "bad-op"
   | ["vecgrad", mi, sh, ro, mp, mu] =>
@@ -125,7 +178,7 @@ def stepC13 (line : String) : String :=
             { shift := vec3Of rr.shift, rot := mat3Of rr.rot, mirror := rr.mirror,
               map := fun i => m[i.val]'(by rw [hm]; exact i.isLt) }
           let M : Fin 3 → Fin (n * 3) → Rat := fun a c => u[a.val * (n * 3) + c.val]!
-          let A := alignVectorGradient r M
+          let A := F.vecgrad r M
           showRats ((fins 3).flatMap fun a => (fins (n * 3)).map fun c => A a c)
         else "bad-op"
     | _, _ => "bad-op"
@@ -136,7 +189,7 @@ def stepC13 (line : String) : String :=
       match mapOf? mp a.size with
       | none => "err IndexError"
       | some m =>
-        let r := alignAtoms (fun i : Fin m.size => m[i]) (fun i : Fin a.size => a[i])
+        let r := F.atoms (fun i : Fin m.size => m[i]) (fun i : Fin a.size => a[i])
         "ok " ++ " ".intercalate ((fins m.size).map fun i => toString (r i))
     | _, _ => "bad-op"
   | ["bexp", dims, dat] =>
@@ -144,8 +197,8 @@ def stepC13 (line : String) : String :=
     | some [gr, gc, lr, lc], some a =>
       if a.size != (gr * lr) * (gc * lc) then "bad-op" else
       let A : Fin (gr * lr) → Fin (gc * lc) → Rat := fun r c => a[r.val * (gc * lc) + c.val]!
-      let B := blockwiseExpand A
-      showRats ((fins gr).flatMap fun i => (fins gc).flatMap fun j =>
+      let B := F.bexp A
+      showOptRats ((fins gr).flatMap fun i => (fins gc).flatMap fun j =>
         (fins lr).flatMap fun p => (fins lc).map fun q => B i j p q)
     | _, _ => "bad-op"
   | ["bcon", dims, dat] =>
@@ -154,9 +207,18 @@ def stepC13 (line : String) : String :=
       if b.size != gr * gc * lr * lc then "bad-op" else
       let B : Fin gr → Fin gc → Fin lr → Fin lc → Rat :=
         fun i j p q => b[((i.val * gc + j.val) * lr + p.val) * lc + q.val]!
-      let A := blockwiseContract B
-      showRats ((fins (gr * lr)).flatMap fun r => (fins (gc * lc)).map fun c => A r c)
+      match F.bcon B with
+      | none => "err ViewError"
+      | some (h, w, A) =>
+        -- the shape is part of the answer: a result of another shape than (gr*lr, gc*lc) is reported
+        if h != gr * lr || w != gc * lc then s!"err shape {h} {w}" else
+        showOptRats ((List.range h).flatMap fun r => (List.range w).map fun c => A r c)
     | _, _ => "bad-op"
   | _ => "bad-op"
+
+def stepC13 (line : String) : String :=
+  match splitOnChar line '|' with
+  | "src" :: rest => stepWith srcFns rest
+  | fields => stepWith handFns fields
 
 def main : IO Unit := mainLoop stepC13
